@@ -329,6 +329,12 @@ fn awkward_docs() -> Vec<String> {
         "# only a comment\n".into(),
         "---\na: 1\n---\nb: 2\n".into(),
         "a: !Ref x\nb: !Join [',', [1, !GetAtt a.b]]\nc: !Unknown y\n".into(),
+        // every short-form tag on the kind of node it is not meant for
+        "a: !Base64\n  - x\n  - y\nb:\n  - !Ref [SgA, SgB]\n  - !GetAZs [r]\nc: !ImportValue [v]\nd: !Condition\n  - c\ne: !Join plain\nf: !Sub\n  k: v\ng: !Ref {k: v}\nh: !GetAtt\n  k: v\n".into(),
+        "!Ref [a, b]\n".into(),
+        "!Base64\n- a\n- b\n".into(),
+        "!Join scalar\n".into(),
+        "a: !Select\nb: !Ref\nc: !Split []\nd: !If {}\ne: !FindInMap x\nf: !Equals {a: [!Ref [x]]}\n".into(),
         "a: &anchor 1\nb: *anchor\n".into(),
         "? [complex, key]\n: 1\n".into(),
         "a: 1e999\nb: -1e999\nc: .nan\nd: 0x1F\ne: 0o17\nf: 1_000\n".into(),
